@@ -1,5 +1,5 @@
 (* C06 property theorems: structural edits relocate grid content exactly (sheet core). *)
-From VF Require Import Base.Prelude Generated.Consts Sheet.Model Sheet.Proofs Sheet.Adjust Sheet.AdjustProofs Sheet.DupProofs.
+From VF Require Import Base.Prelude Generated.Consts Sheet.Model Sheet.Proofs Sheet.Adjust Sheet.AdjustProofs Sheet.DupProofs C03.Merge Sheet.MergeAdjust.
 
 Theorem C06_insert_rows_refines : forall rw n sh sh', insert_rows rw n sh = Ok sh' ->
   forall c r, 1 <= c -> 1 <= r -> abs sh' c r = shift_rows_spec rw n (abs sh) c r.
@@ -59,6 +59,29 @@ Print Assumptions C06_dup_remove_id.
 Theorem C06_dup_reject_atomic : forall rw rw2 sh e, dup_row_to rw rw2 sh = Err e -> estep sh (EDupRowTo rw rw2) = sh.
 Proof. exact estep_reject_dup. Qed.
 Print Assumptions C06_dup_reject_atomic.
+
+(* merged ranges under the four edits: each range moves by the shift rule (rows shown; columns are symmetric), and
+   a set of well-formed pairwise disjoint ranges stays well formed and pairwise disjoint *)
+Theorem C06_merges_stay_disjoint : forall is_rows num offset ms, 1 <= num -> (1 <= offset \/ offset = -1) ->
+  Forall rect_ok ms -> ForallOrdPairs disjoint ms ->
+  Forall rect_ok (adjust_merges is_rows num offset ms) /\ ForallOrdPairs disjoint (adjust_merges is_rows num offset ms).
+Proof. exact adjust_merges_disjoint. Qed.
+Print Assumptions C06_merges_stay_disjoint.
+
+Theorem C06_merge_rule_insert_rows : forall num n x1 y1 x2 y2, 1 <= n -> y1 <= y2 -> x1 <= x2 -> (x1 < x2 \/ y1 < y2) ->
+  adjust_merges true num n [(x1, y1, x2, y2)] =
+  [if num <=? y1 then (x1, y1 + n, x2, y2 + n) else if num <=? y2 then (x1, y1, x2, y2 + n) else (x1, y1, x2, y2)].
+Proof. exact adjust_one_rows_insert. Qed.
+Print Assumptions C06_merge_rule_insert_rows.
+
+Theorem C06_merge_rule_remove_row : forall num x1 y1 x2 y2, y1 <= y2 -> x1 <= x2 -> (x1 < x2 \/ y1 < y2) ->
+  adjust_merges true num (-1) [(x1, y1, x2, y2)] =
+  if (y1 =? num) && (y2 =? num) then []
+  else if num <? y1 then [(x1, y1 - 1, x2, y2 - 1)]
+  else if num <=? y2 then (if (x1 =? x2) && (y1 =? y2 - 1) then [] else [(x1, y1, x2, y2 - 1)])
+  else [(x1, y1, x2, y2)].
+Proof. exact adjust_one_rows_remove. Qed.
+Print Assumptions C06_merge_rule_remove_row.
 
 Example C06_dup_ex :
   let sh := erun [EBase (OSet 1 1 0 [49]); EBase (OSet 2 3 0 [51]); EBase (ORowStyle 3 7); EDupRowTo 3 1; EDupRowTo 2 9] empty_sheet in
